@@ -23,10 +23,12 @@ EXTENDS Naturals, Sequences, FiniteSets, SequencesExt
 
 CONSTANT W                      \* bits per backend word (64 in the code)
 
-VARIABLES abs, store, nw, form
-bvvars == <<abs, store, nw, form>>
+VARIABLES abs, store, nw, form,
+          tight     \* TRUE while the vector "has only been built or grown" (C11)
+bvvars == <<abs, store, nw, form, tight>>
 
-Forms == {"none", "vec", "boxed", "atomic", "atomic_boxed"}
+\* "ro": a read-only instance over borrowed storage (zero-copy deserialisation / mmap)
+Forms == {"none", "vec", "boxed", "atomic", "atomic_boxed", "ro"}
 
 Low(n)        == 0 .. (n - 1)
 Rng(a, b)   == a .. (b - 1)                  \* [a, b)
@@ -43,6 +45,7 @@ Asc(S)        == SetToSortSeq(S, LAMBDA a, b : a < b)
 TypeOK == /\ abs \in Seq(BOOLEAN)
           /\ nw \in Nat
           /\ form \in Forms
+          /\ tight \in BOOLEAN
           /\ store \subseteq Low(nw * W)
 Refines      == \A i \in Low(BLen) : abs[i + 1] <=> (i \in store)
 LargeEnough  == BLen <= nw * W
@@ -53,10 +56,13 @@ LargeEnough  == BLen <= nw * W
 Ctors    == {"new", "with_value", "with_capacity", "macro_empty", "macro_rep",
              "macro_list", "collect", "raw", "a_new", "a_with_value"}
 GrowOps  == {"push", "pop", "resize", "extend"}
-PlainOps == {"get", "index", "set", "fill", "par_fill", "flip", "par_flip",
-             "reset", "par_reset", "len", "iter", "into_iter", "iter_ones",
-             "iter_zeros", "count_ones", "par_count_ones", "count_zeros",
-             "display", "eq_other", "to_owned", "clone"}
+\* (par_count_ones is a reader, but the code requires a mutable backend for it)
+WriteOps == {"set", "fill", "par_fill", "flip", "par_flip", "reset", "par_reset", "par_count_ones"}
+ReadOps  == {"get", "index", "len", "iter", "into_iter", "iter_ones",
+             "iter_zeros", "count_ones", "count_zeros",
+             "display", "eq_other", "to_owned", "clone", "mem_size",
+             "rank_hinted", "select_hinted", "select_zero_hinted"}
+PlainOps == WriteOps \cup ReadOps
 AtomOps  == {"a_get", "a_index", "a_set", "a_swap", "a_fill", "a_par_fill",
              "a_flip", "a_par_flip", "a_reset", "a_par_reset", "a_count_ones",
              "a_par_count_ones", "a_count_zeros", "a_len", "a_iter"}
@@ -67,7 +73,11 @@ IntoOK(f, to) == <<f, to>> \in {<<"vec", "boxed">>, <<"vec", "atomic">>,
 Applicable(op) ==
     \/ op.op \in Ctors
     \/ op.op \in GrowOps  /\ form = "vec"
-    \/ op.op \in PlainOps /\ form \in {"vec", "boxed"}
+    \/ op.op \in WriteOps /\ form \in {"vec", "boxed"}
+    \/ op.op \in ReadOps  /\ form \in {"vec", "boxed", "ro"}
+    \/ op.op = "capacity" /\ form = "vec"
+    \/ op.op = "reload"   /\ form \in {"vec", "boxed"} /\ op.mode \in {"full", "eps", "mmap"}
+    \/ op.op = "a_mem_size" /\ form \in {"atomic", "atomic_boxed"}
     \/ op.op \in AtomOps  /\ form \in {"atomic", "atomic_boxed"}
     \/ op.op = "into" /\ IntoOK(form, op.to)
 
@@ -86,7 +96,10 @@ CodeGrowth(op) ==
     IN  [nw   |-> IF op.op = "raw" THEN op.rnw
                   ELSE IF op.op \in Ctors THEN CeilDiv(n, W)
                   ELSE IF n > nw * W THEN CeilDiv(n, W) ELSE nw,
-         garb |-> {}]
+         garb |-> {}]      \* (reload: the serialised backend is the word vector itself)
+
+\* operations after which the backend is a new allocation
+Rebuilds == Ctors \cup {"reload"}
 
 (***************************************************************************)
 (* The state after writing the bits  bs  at positions  from ..  and making *)
@@ -96,7 +109,7 @@ CodeGrowth(op) ==
 (* words beyond it are  g.garb .                                           *)
 (***************************************************************************)
 GrowOK(op, a, g) ==
-    LET base == IF op.op \in Ctors THEN 0 ELSE nw IN
+    LET base == IF op.op \in Rebuilds THEN 0 ELSE nw IN
     /\ g.nw >= base
     /\ g.nw * W >= Len(a)
     /\ g.garb \subseteq Rng(IF base * W > Len(a) THEN base * W ELSE Len(a), g.nw * W)
@@ -111,6 +124,12 @@ Same           == St(abs, store, nw, form)
 Ret(r, s)      == [out |-> "ret", rk |-> "val", res |-> r, st |-> s]
 Unit(s)        == [out |-> "ret", rk |-> "none", res |-> <<>>, st |-> s]
 Panic          == [out |-> "panic", rk |-> "none", res |-> <<>>, st |-> Same]
+NotApp         == [out |-> "na", rk |-> "none", res |-> <<>>, st |-> Same]
+Kind(k)        == [out |-> "ret", rk |-> k, res |-> <<>>, st |-> Same]
+
+RankAt(p)      == Cardinality({i \in Ones(abs) : i < p})
+NthOf(S, r)    == Asc(S)[r + 1]                 \* r-th smallest element, r < |S|
+Zeros(a)       == Low(Len(a)) \ Ones(a)
 
 (***************************************************************************)
 (* Eff(op, g): outcome, result and next state of one public call.          *)
@@ -173,8 +192,29 @@ Eff(op, g) ==
     [] o \in {"count_zeros", "a_count_zeros"} -> Ret(BLen - Cardinality(Ones(abs)), Same)
     [] o = "eq_other" ->
          LET e == (abs = AbsOf(ToSet(op.ostore), op.olen)) IN Ret(<<e, e, e>>, Same)
-    [] o \in {"to_owned", "clone"} -> [out |-> "ret", rk |-> "copy", res |-> <<>>, st |-> Same]
+    [] o \in {"to_owned", "clone"} -> Kind("copy")
     [] o = "into" -> Unit(St(abs, store, nw, op.to))
+    \* ------------------------------------------------------------ space (C11), reload (C15)
+    [] o \in {"mem_size", "a_mem_size"} -> Kind("mem")
+    [] o = "capacity" -> Kind("cap")
+    [] o = "reload" ->
+         Unit(St(abs, (store \cap Low(BLen)) \cup g.garb, g.nw,
+                 IF op.mode = "full" THEN form ELSE "ro"))
+    \* ------------------------------------------------------------ hinted rank/select
+    \* (unsafe: the executor calls them only inside their preconditions, which
+    \* the specification re-derives; otherwise both say "na")
+    [] o = "rank_hinted" ->
+         IF op.pos < BLen /\ op.hp * W <= op.pos
+         THEN [out |-> "ret", rk |-> "hint", res |-> RankAt(op.pos), hr |-> RankAt(op.hp * W), st |-> Same]
+         ELSE NotApp
+    [] o = "select_hinted" ->
+         IF op.hp < BLen /\ RankAt(op.hp) <= op.r /\ op.r < Cardinality(Ones(abs))
+         THEN [out |-> "ret", rk |-> "hint", res |-> NthOf(Ones(abs), op.r), hr |-> RankAt(op.hp), st |-> Same]
+         ELSE NotApp
+    [] o = "select_zero_hinted" ->
+         IF op.hp < BLen /\ op.hp - RankAt(op.hp) <= op.r /\ op.r < Cardinality(Zeros(abs))
+         THEN [out |-> "ret", rk |-> "hint", res |-> NthOf(Zeros(abs), op.r), hr |-> op.hp - RankAt(op.hp), st |-> Same]
+         ELSE NotApp
 
 \* A copy (to_owned / clone) must have the same contents; its storage beyond
 \* the length is unconstrained.
@@ -183,6 +223,27 @@ CopyOK(r) == /\ r.olen = BLen
              /\ \A i \in Low(BLen) : abs[i + 1] <=> (i \in ToSet(r.ostore))
              /\ r.eq
 
+
+(***************************************************************************)
+(* C11: reported memory.  HdrBytes is the additive constant: the struct    *)
+(* itself (a Vec = 3 words or a boxed slice / reference = 2 words, plus    *)
+(* the length word), at most 4 words.  Whatever the history, the report    *)
+(* covers at most the backend words; while the vector has only been built  *)
+(* or grown the backend is exactly ceil(len / W) words.                    *)
+(***************************************************************************)
+HdrBytes == 4 * (W \div 8)
+MemOK(r) == /\ r <= HdrBytes + nw * (W \div 8)
+            /\ tight => r <= HdrBytes + CeilDiv(BLen, W) * (W \div 8)
+CapOK(r) == r >= BLen
+
+\* is the vector still "only built or grown" after op (with effect x)?
+TightAfter(op, x) ==
+    IF x.out # "ret" THEN tight
+    ELSE IF op.op = "raw" THEN FALSE
+    ELSE IF op.op \in Ctors THEN TRUE
+    ELSE IF op.op = "pop" /\ BLen > 0 THEN FALSE
+    ELSE IF op.op = "resize" /\ op.n < BLen THEN FALSE
+    ELSE tight
 
 (***************************************************************************)
 (* Word-level readers: transcriptions of the loops in bit_vec.rs over the  *)
@@ -245,10 +306,13 @@ DesignReaders ==
 (***************************************************************************)
 (* Actions of the design model.                                            *)
 (***************************************************************************)
-Install(s) == /\ abs' = s.abs /\ store' = s.store /\ nw' = s.nw /\ form' = s.form
+Install(s, t) == /\ abs' = s.abs /\ store' = s.store /\ nw' = s.nw /\ form' = s.form /\ tight' = t
 
-BVInit == abs = <<>> /\ store = {} /\ nw = 0 /\ form = "none"
+BVInit == abs = <<>> /\ store = {} /\ nw = 0 /\ form = "none" /\ tight = TRUE
 
-Do(op) == Install(Eff(op, CodeGrowth(op)).st)
+Do(op) == LET x == Eff(op, CodeGrowth(op)) IN Install(x.st, TightAfter(op, x))
+
+\* design: while only built or grown, the code's backend has exactly ceil(len / W) words
+TightDesign == (tight /\ form # "none") => nw = CeilDiv(BLen, W)
 
 =============================================================================
